@@ -3,10 +3,11 @@ NEXT NNext
 CONSTANTS
   Mode = "pairs"
   Depth = 1
+  NFixed = {}
   NBug = "none"
   NVSpace = "d1"
   NCompoundV = "small"
-  NKinds = {"isinstance", "issubclass", "typeis", "typeguard", "is", "eq", "in", "truthy", "len", "c_isinstance", "c_isvalue", "not", "and", "or", "deep"}
+  NKinds = {"isinstance", "issubclass", "typeis", "typeguard", "is", "eq", "in", "truthy", "len", "c_isinstance", "c_isvalue", "match", "not", "and", "or", "deep"}
 INVARIANT EmitObjs
 INVARIANT EmitV
 INVARIANT EmitDone
